@@ -334,7 +334,7 @@ Definition plain_op (o : op) : Prop :=
   | OInsert _ _ _ | ODelete _ | OGet _ | OExist _ | OCount | OAll
   | OCommit | OFlushAll | OFlushAllCommit | OControl | OSchema
   | OMany _ | OBulk _ _ | ODeleteAll _ | OSearch _ _ _ _ | OAnd _ _ _ _ _ | OOr _ _ _ _ _ | OLen _
-  | OCollect _ _ _ | OOne _ | OSearchDelete _ | OAssignIndex _ | ORepair _ => True
+  | OCollect _ _ _ | OOne _ | OSearchDelete _ | OAssignIndex _ | ORepair _ | OFlushOne _ _ _ | OExpects _ _ _ => True
   | _ => False
   end.
 
@@ -469,6 +469,19 @@ Proof.
   - (* OSchema *)
     destruct (db_schema ls (s_h s) (w_disk (s_w s))) as [[h1 om] e] eqn:D.
     destruct (R_db_schema _ _ _ _ _ _ D) as [G _]. inversion H; subst. exact G.
+  - (* OFlushOne *)
+    destruct (if withc then commit ls (s_h s) (s_w s) else (s_h s, None, s_w s)) as [[h0 e0] w0] eqn:C.
+    assert (G0 : R (s_h s) h0) by (destruct withc; [apply (R_commit _ _ _ _ _ _ C)|inversion C; apply R_refl]).
+    destruct (db_schema ls h0 (w_disk w0)) as [[h1 om] e] eqn:D.
+    destruct (R_db_schema _ _ _ _ _ _ D) as [G1 _].
+    assert (G2 : R (s_h s) (set_pend h1 (remove_key u (h_pend h1)))).
+    { eapply R_trans; [exact G0|]. eapply R_trans; [exact G1|]. apply R_view; try reflexivity.
+      cbn [set_pend h_pend]. intros X Y. apply X. rewrite Y. reflexivity. }
+    destruct om as [m|], e as [x|]; try (inversion H; subst; exact G2).
+    destruct (write_object w0 m u ob). inversion H; subst. exact G2.
+  - (* OExpects *)
+    destruct (sr_err (find_srch (s_h s) sid)); [inversion H; apply R_refl|].
+    destruct (_ || _); inversion H; subst; [apply R_refl|cbn [mk s_h]; apply R_set_srch].
 Qed.
 
 (* ---------------------------------------------------------------- the invariant *)
